@@ -8,6 +8,7 @@ import (
 	"math"
 	"math/rand/v2"
 	"reflect"
+	"regexp"
 	"runtime"
 	"sort"
 	"strconv"
@@ -161,6 +162,10 @@ func (o arshalOpts) options(r *rand.Rand) []jsonv2.Options {
 		out = append(out, jsonv1.FormatByteArrayAsArray(true), jsonv1.FormatBytesWithLegacySemantics(true))
 	case "nano":
 		out = append(out, jsonv1.FormatDurationAsNano(true))
+	case "bytearray":
+		out = append(out, jsonv1.FormatByteArrayAsArray(true))
+	case "loose":
+		out = append(out, jsonv1.ParseBytesWithLooseRFC4648(true), jsonv1.ParseTimeWithLooseRFC3339(true), jsonv1.UnmarshalArrayFromAnyLength(true))
 	case "escape":
 		out = append(out, jsontext.EscapeForHTML(true), jsontext.EscapeForJS(true))
 	case "multiline":
@@ -170,7 +175,7 @@ func (o arshalOpts) options(r *rand.Rand) []jsonv2.Options {
 }
 
 var symmetricOptSets = []arshalOpts{{Name: "default"}, {Name: "stringify"}, {Name: "deterministic"}, {Name: "v1", AI: true, AD: true}, {Name: "nilasnull"},
-	{Name: "legacy-bytes"}, {Name: "nano"}, {Name: "escape"}, {Name: "multiline"}, {Name: "omitzero"}}
+	{Name: "legacy-bytes"}, {Name: "nano"}, {Name: "escape"}, {Name: "multiline"}, {Name: "omitzero"}, {Name: "bytearray"}, {Name: "loose"}, {Name: "legacy-omitempty"}}
 
 // ------------------------------------------------------------------ records
 
@@ -243,6 +248,11 @@ func optsArshalOnly(o []jsonv2.Options) []jsonv2.Options { return nil }
 // ------------------------------------------------------------------ C02: Marshal output is valid JSON
 
 func c02Type(r *rand.Rand) *tdesc {
+	if r.IntN(10) == 0 { // times printed with their zone abbreviation by a named layout
+		lay := []string{"RFC822", "RFC850", "RFC1123", "UnixDate", "'2006-01-02 MST'", "RFC3339"}[r.IntN(6)]
+		return &tdesc{K: "struct", Fields: []fdesc{{Go: "T", T: &tdesc{K: "time"}, Tag: `json:",format:` + lay + `"`},
+			{Go: "M", T: &tdesc{K: "map", Key: &tdesc{K: "string"}, Elem: &tdesc{K: "time"}}}}}
+	}
 	c := &typeCfg{maxDepth: 1 + r.IntN(4), maxFields: 1 + r.IntN(6), tags: true, anys: true, rawValues: true, times: r.IntN(3) == 0, floats: true, formats: r.IntN(3) == 0,
 		mapKeys: []string{"string", "int", "uint8", "bool", "float64", "cat:text", "cat:appender", "any", "ptr:slice", "ptr:string", "ptr:struct", "array:int", "struct"}}
 	t := genTypeDesc(r, c, 0)
@@ -494,9 +504,11 @@ func c04Exec(c *arshalCase) {
 	td, omit := c04Type(r)
 	t := buildType(td)
 	c.Type = truncate(t.String(), 300)
-	v := genGoValue(r, &valCfg{nils: true}, t, 0)
-	opts := append(c.Opts.options(r), jsonv2.ExperimentalSupportFormatTag(true))
 	hasFormat := strings.Contains(t.String(), "format:")
+	// unnamed numeric zones do not survive time layouts that print a zone abbreviation (a property
+	// of package time), so they are used with the default RFC 3339 representation only
+	v := genGoValue(r, &valCfg{nils: true, numericZones: !hasFormat}, t, 0)
+	opts := append(c.Opts.options(r), jsonv2.ExperimentalSupportFormatTag(true))
 	c.Omit = omit || c.Opts.Name == "omitzero" || c.Opts.Name == "legacy-omitempty" || c.Opts.Name == "v1"
 	out1, err1 := jsonv2.Marshal(v.Interface(), opts...)
 	c.Outs = append(c.Outs, okBytes("out1", out1, err1))
@@ -647,6 +659,8 @@ func driveArshal(args map[string]string) error {
 			c04Exec(c)
 		case "untyped":
 			c03Exec(c)
+		case "sweep":
+			c07SweepExec(c)
 		case "merge":
 			c14Exec(c)
 		case "ambig":
@@ -667,6 +681,33 @@ func driveArshal(args map[string]string) error {
 		return err
 	}
 	seed, n, mode := uint64(argInt(args, "seed", 1)), argInt(args, "n", 1000), argStr(args, "mode", "c02")
+	if mode == "c07sweep" {
+		// pad lengths 0..maxpad in steps, phase shifted by the seed so that successive runs cover all lengths
+		step, maxpad := argInt(args, "step", 3), argInt(args, "maxpad", 5200)
+		id := 0
+		var mu sync.Mutex
+		var wg sync.WaitGroup
+		sem := make(chan struct{}, runtime.NumCPU())
+		for L := int(seed) % step; L <= maxpad; L += step {
+			for vi, on := range []string{"default", "multiline"} {
+				id++
+				wg.Add(1)
+				sem <- struct{}{}
+				go func(id, L, vi int, on string) {
+					defer wg.Done()
+					defer func() { <-sem }()
+					c := arshalCase{ID: id, Prop: argStr(args, "prop", "C07"), Kind: "sweep", Seed: []uint64{uint64(L), uint64(L/step + vi*3)}, Opts: arshalOpts{Name: on}}
+					c07SweepExec(&c)
+					mu.Lock()
+					out.put(c)
+					mu.Unlock()
+				}(id, L, vi, on)
+			}
+		}
+		wg.Wait()
+		summary(map[string]any{"cases": id, "succeeded": id})
+		return nil
+	}
 	var wg sync.WaitGroup
 	var nok atomic.Int64
 	workers := runtime.NumCPU()
@@ -808,7 +849,16 @@ func c14Exec(c *arshalCase) {
 	for i := 0; i < k; i++ {
 		var sb strings.Builder
 		genJSONFor(r, td, &sb, 0)
-		texts = append(texts, []byte(sb.String()))
+		tx := []byte(sb.String())
+		if i > 0 && r.IntN(2) == 0 { // a variation of the previous text: deep overlaps of nested objects
+			var prev any
+			if jsonv2.Unmarshal(texts[i-1], &prev) == nil {
+				if b, err := jsonv2.Marshal(perturb(r, prev, 0), jsonv2.Deterministic(true)); err == nil {
+					tx = b
+				}
+			}
+		}
+		texts = append(texts, tx)
 	}
 	// JSON-level merge computed by the driver; the specification re-derives it
 	var acc any
@@ -975,7 +1025,20 @@ func c08Exec(c *arshalCase) {
 	genJSONFor(r, td, &sb, 0)
 	clean := []byte(sb.String())
 	text := clean
-	mode := []string{"dup", "dup", "dup-escaped", "badutf8", "clean"}[r.IntN(5)]
+	mode := []string{"dup", "dup", "dup-escaped", "badutf8", "clean", "wide"}[r.IntN(6)]
+	prefill := r.IntN(3) == 0 && c.Seed[0]%2 == 0
+	if mode == "wide" {
+		// more than 64 members (the name set switches to a map) with the first or last name repeated,
+		// at a position held by a raw value, an untyped value, a map, or skipped as unknown
+		n := 60 + r.IntN(20)
+		w := wideObject(r, n, r.IntN(2) == 0, []int{0, n - 1, r.IntN(n)}[r.IntN(3)], r.IntN(2) == 0)
+		td = &tdesc{K: "struct", Fields: []fdesc{{Go: "D", T: &tdesc{K: "raw"}}, {Go: "X", T: &tdesc{K: "any"}},
+			{Go: "M", T: &tdesc{K: "map", Key: &tdesc{K: "string"}, Elem: &tdesc{K: "int"}}}, {Go: "K", T: &tdesc{K: "int"}}}}
+		t = buildType(td)
+		c.Type = t.String()
+		text = []byte(fmt.Sprintf(`{%q:%s,"K":1}`, []string{"D", "X", "M", "zz_unknown"}[r.IntN(4)], w))
+		clean = []byte(`{"K":2,"M":{"pre":1}}`)
+	}
 	switch mode {
 	case "dup", "dup-escaped":
 		objs, closers := objectMembers(clean)
@@ -1033,8 +1096,100 @@ func c08Exec(c *arshalCase) {
 	c.Texts = [][]int{ints(text)}
 	for i, o := range [][]jsonv2.Options{{}, {jsontext.AllowDuplicateNames(true)}, {jsontext.AllowInvalidUTF8(true)}, {jsontext.AllowDuplicateNames(true), jsontext.AllowInvalidUTF8(true)}} {
 		p := reflect.New(t)
+		if prefill { // the destination already holds data (maps track duplicates differently then)
+			if jsonv2.Unmarshal(clean, p.Interface(), jsontext.AllowDuplicateNames(true), jsontext.AllowInvalidUTF8(true)) != nil {
+				p = reflect.New(t)
+			}
+		}
 		err := jsonv2.Unmarshal(text, p.Interface(), o...)
 		res := renderResult(p, err)
 		c.Outs = append(c.Outs, []any{[]string{"default", "ad", "ai", "ad+ai"}[i], res[0], res[1]})
 	}
+}
+
+// perturb keeps the shape of a JSON value but drops, changes and adds members of objects at
+// every depth (arrays and scalars are kept or replaced wholesale)
+func perturb(r *rand.Rand, v any, depth int) any {
+	switch x := v.(type) {
+	case map[string]any:
+		out := map[string]any{}
+		for k, e := range x {
+			switch r.IntN(5) {
+			case 0: // dropped
+			case 1:
+				out[k] = e
+			default:
+				out[k] = perturb(r, e, depth+1)
+			}
+		}
+		if r.IntN(2) == 0 {
+			out["k"+strconv.Itoa(r.IntN(4))] = map[string]any{"n" + strconv.Itoa(r.IntN(3)): float64(r.IntN(9))}
+		}
+		return out
+	case []any:
+		return x
+	case float64:
+		if r.IntN(2) == 0 {
+			return x + 1
+		}
+	}
+	return v
+}
+
+// ------------------------------------------------------------------ C07: flush thresholds vs retracted members
+
+type sweepT struct {
+	Pad  string
+	P    *[]int          `json:",omitempty"`
+	Q    *[0]int         `json:",omitempty"`
+	I    any             `json:",omitempty"`
+	M    *map[string]int `json:",omitempty"`
+	S    *string         `json:",omitempty"`
+	N    *int            `json:",omitempty"`
+	E    struct{}        `json:",omitempty"`
+	Keep []int           `json:",omitempty"`
+	Tail int
+}
+
+var xRun = regexp.MustCompile(`x{9,}`)
+
+// squeeze shortens the padding run so that traces stay small; the result is still the same
+// JSON text up to the content of that one string
+func squeeze(b []byte) []byte {
+	return xRun.ReplaceAllFunc(b, func(m []byte) []byte { return []byte("x" + strconv.Itoa(len(m))) })
+}
+
+func c07SweepExec(c *arshalCase) {
+	defer func() {
+		if r := recover(); r != nil {
+			c.Panic = fmt.Sprint(r)
+		}
+		c.norm()
+	}()
+	L := int(c.Seed[0])
+	variant := int(c.Seed[1])
+	empty, emptyStr, emptyMap := []int{}, "", map[string]int{}
+	v := sweepT{Pad: strings.Repeat("x", L), P: &empty, Q: &[0]int{}, I: []int{}, M: &emptyMap, S: &emptyStr, Tail: 7}
+	switch variant % 4 {
+	case 1:
+		v.I = map[string]any{}
+		v.Keep = []int{1}
+	case 2:
+		v.I = ""
+		v.P = nil
+	case 3:
+		v.I = []any{}
+		v.S = nil
+		v.M = nil
+	}
+	c.Type = fmt.Sprintf("sweepT pad=%d variant=%d", L, variant)
+	opts := c.Opts.options(nil)
+	if variant%8 >= 4 { // a failed MarshalWrite first: the recycled encoder must come back clean
+		jsonv2.MarshalWrite(&scriptedWriter{outcomes: []int{3}}, []string{strings.Repeat("stale", 40)})
+	}
+	outs := marshalRoutes(v, opts)
+	for _, o := range outs {
+		o[2] = ints(squeeze(bytesOf(o[2].([]int))))
+	}
+	c.Outs = outs
 }
